@@ -297,6 +297,7 @@ func runCheck(prop, tier string) int {
 			}
 			if r.Status == "error" {
 				viols = append(viols, violation{Obligation: name, Status: "solver-error", Clause: r.Obl.Clause, Detail: firstLines(r.Output, 5)})
+				fmt.Printf("  solver error on %s: %s\n", name, firstLines(r.Output, 3))
 			}
 			continue
 		}
